@@ -42,6 +42,8 @@ func main() {
 	case "alg":
 		err = alg.Run(alg.Config{Prop: c.prop, In: c.in, Seed: c.seed, Bindings: *bindings, Max: *max, MaxSlow: *maxslow,
 			ScalarsOnly: *scalars, Groups: c.groups, CodecAll: *codecall}, res)
+	case "pairing":
+		err = alg.RunPairing(alg.Config{Prop: c.prop, In: c.in, Seed: c.seed, Bindings: *bindings, Max: *max}, res)
 	default:
 		err = fmt.Errorf("unknown driver %q", drv)
 	}
